@@ -2,6 +2,8 @@
 mod verif_ctor {
     use super::*;
     use crate::layout::{Layout, MutLayout, NdLayout, OverlapPolicy};
+    #[allow(unused_imports)]
+    use crate::storage::IntoStorage;
 
     const MAXLEN: usize = 4;
 
@@ -195,6 +197,23 @@ mod verif_ctor {
     // [3,1]: offsets {k*s0}
     expanded_layout_ok!(expanded_layout_no_alias_3x1_axis0, [3, 1], 0, |s0, _s1| s0 != 0);
     expanded_layout_ok!(expanded_layout_no_alias_3x1_axis1, [3, 1], 1, |s0, _s1| s0 != 0);
+
+    /// from_storage_and_layout documents a panic when the storage is too short for the layout:
+    /// the call must never return in that case (should_panic + unsatisfiable cover).
+    #[kani::proof]
+    #[kani::should_panic]
+    #[kani::unwind(6)]
+    pub fn from_storage_and_layout_rejects_short_storage() {
+        let shape: [usize; 2] = kani::any();
+        let strides: [usize; 2] = kani::any();
+        let buf = [0u8; MAXLEN];
+        let len: usize = kani::any();
+        kani::assume(len <= MAXLEN);
+        kani::assume(!valid(&shape, &strides, len));
+        let layout = NdLayout::<2>::from_shape_and_strides(shape, strides, OverlapPolicy::AllowOverlap).unwrap();
+        let _t = NdTensorView::<u8, 2>::from_storage_and_layout((&buf[..len]).into_storage(), layout);
+        kani::cover!(true, "from_storage_and_layout returned for a layout that does not fit the storage");
+    }
 
     #[kani::proof]
     pub fn canary() {
